@@ -82,6 +82,18 @@ theorem dedupeExpr_eq : dedupeExpr = "list({f.name: f for f in fields}.values())
 /-- the cycle test looks at the parents only: `parents.contains name` in `includeMacro` -/
 theorem cycleTest_eq : cycleTest = "name in parent_macros" := rfl
 
+/-- the second check (D46 repaired by 97f2c27), evaluated first: the macro is on the stack of *all*
+    macros under expansion although it is not a parent of this inclusion chain — `cycleErr` in the
+    model; the stack is pushed before and popped after the macro's inclusions, fields and friends -/
+theorem nestedCycleTest_eq :
+    nestedCycleTest = "name not in parent_macros and name in context.macros_being_expanded" ∧
+    macroExpansionTracking = "stack" := ⟨rfl, rfl⟩
+
+theorem cycleErr_spec (exp ps : List String) (n : String) :
+    cycleErr exp ps n =
+      if !ps.contains n && exp.contains n then some (.macroNested n)
+      else if ps.contains n then some (.macroCycle ps n) else none := rfl
+
 /-- `include_macro` passes `parent_macros + (name,)` down: `parents ++ [name]` -/
 theorem includeMacroInclusionArgs_eq :
     includeMacroInclusionArgs = ["macro", "fields", "friends", "context", "parent_macros + (name,)"] := rfl
@@ -104,14 +116,20 @@ theorem includeMacroSource_eq : includeMacroSource =
      "if not macro:",
      "    raise exc.DataGenNameError(f'Cannot find macro named {name}', **context.line_num())",
      "parsed_macro = parse_element(macro, 'macro', {}, {'fields': Dict, 'friends': List, 'include': str}, context)",
+     "if name not in parent_macros and name in context.macros_being_expanded:",
+     "    raise exc.DataGenError(f'Macro `{name}` includes itself through a nested object template', **context.line_num(macro))",
      "if name in parent_macros:",
      "    idx = parent_macros.index(name)",
      "    raise exc.DataGenError(f'Macro `{name}` calls `{'` which calls `'.join(parent_macros[idx + 1:])}` which calls `{name}`', **context.line_num(macro))",
      "fields = []",
      "friends = []",
-     "parse_inclusions(macro, fields, friends, context, parent_macros + (name,))",
-     "fields.extend(parse_fields(parsed_macro.fields or {}, context))",
-     "friends.extend(parse_friends(parsed_macro.friends or [], context))",
+     "context.macros_being_expanded.append(name)",
+     "try:",
+     "    parse_inclusions(macro, fields, friends, context, parent_macros + (name,))",
+     "    fields.extend(parse_fields(parsed_macro.fields or {}, context))",
+     "    friends.extend(parse_friends(parsed_macro.friends or [], context))",
+     "finally:",
+     "    context.macros_being_expanded.pop()",
      "return (_dedupe_field_list(fields), friends)"] := rfl
 
 theorem parseInclusionsSource_eq : parseInclusionsSource =
@@ -139,20 +157,52 @@ theorem topLevelOrder_eq : topLevelOrder = modelTopLevelOrder := rfl
 /-- the macro table is a dict keyed by the macro name, updated per file: `dictUpdate c.macros (macrosOf items)` -/
 theorem macroUpdateExpr_eq : macroUpdateExpr = "{obj['macro']: obj for obj in top_level_objects['macro']}" := rfl
 
-/-- the version is *assigned* from the file's own declarations (`version := v` in `parseFile`) -/
-theorem versionAssign_eq :
-    versionAssign = "context.version = parse_version(top_level_objects['snowfakery_version'], context)" := rfl
+/-- the version rule (D47 repaired by 6931335): kind `keep-or-conflict` — `own_version =
+    parse_version(own declarations)`; only `if own_version is not None`: a version already on the
+    context that differs is a `DataGenSyntaxError` (`Err.versionConflict`), else it is stored:
+    `mergeVersion` in `parseFile` -/
+theorem versionRule_eq : versionRule =
+    ["keep-or-conflict",
+     "own_version = parse_version(top_level_objects['snowfakery_version'], context)",
+     "own_version is not None",
+     "context.version not in (None, own_version)",
+     "exc.DataGenSyntaxError",
+     "context.version = own_version"] := rfl
+
+/-- the model's rule, spelled out: nothing declared keeps, equal is fine, different is the conflict error -/
+theorem mergeVersion_spec (inh : Option Int) (v : Int) :
+    mergeVersion inh none = .ok inh ∧ mergeVersion none (some v) = .ok (some v) ∧
+    mergeVersion (some v) (some v) = .ok (some v) ∧
+    (∀ w, w ≠ v → mergeVersion (some w) (some v) = .error .versionConflict) := by
+  refine ⟨rfl, rfl, by simp [mergeVersion], ?_⟩
+  intro w hw
+  have hb : (w == v) = false := by simpa using hw
+  simp [mergeVersion, hb]
 
 theorem parseTopLevelSource_eq : parseTopLevelSource =
     ["top_level_objects = categorize_top_level_objects(data, context)",
      "statements: List[ObjectTemplate] = []",
      "statements.extend(parse_included_files(path, data, context))",
+     "for kind in ('option', 'macro', 'plugin'):",
+     "    for obj in top_level_objects[kind]:",
+     "        declared = obj[kind]",
+     "        if kind == 'plugin':",
+     "            well_formed = isinstance(declared, str) and '.' in declared.strip('.')",
+     "            well_formed = well_formed and (not declared.startswith('.'))",
+     "        else:",
+     "            well_formed = not isinstance(declared, (list, dict))",
+     "        if not well_formed:",
+     "            raise exc.DataGenSyntaxError(f'Cannot use `{declared}` as the name of a {kind}', **context.line_num(obj))",
      "context.options.extend(top_level_objects['option'])",
      "context.macros.update({obj['macro']: obj for obj in top_level_objects['macro']})",
      "plugin_specs = [(obj['plugin'], obj['__line__']) for obj in top_level_objects['plugin']]",
      "plugin_near_recipe = path.parent / 'plugins'",
      "context.plugins.extend(resolve_plugins(plugin_specs, search_paths=[plugin_near_recipe]))",
-     "context.version = parse_version(top_level_objects['snowfakery_version'], context)",
+     "own_version = parse_version(top_level_objects['snowfakery_version'], context)",
+     "if own_version is not None:",
+     "    if context.version not in (None, own_version):",
+     "        raise exc.DataGenSyntaxError('Cannot have multiple conflicting versions in the same recipe: ', **context.line_num(top_level_objects['snowfakery_version'][0]))",
+     "    context.version = own_version",
      "statements.extend(top_level_objects['statement'])",
      "for pluginbase, plugin in context.plugins:",
      "    if pluginbase == ParserMacroPlugin:",
@@ -167,15 +217,38 @@ theorem parseIncludedFilesSource_eq : parseIncludedFilesSource =
      "    templates.extend(parse_included_file(path, fi, context))",
      "return templates"] := rfl
 
-/-- no record of the files being read is kept: no cycle check (`flatten_terminates_refuted`) -/
+/-- `parse_included_file` (D45 repaired by 70277f6): the files being read are a *stack* — pushed before
+    `parse_file`, popped in a `finally` — and a file that is still open is an error: `incStep` in the
+    model (`stack.contains n` ⇒ `includeCycle`, else read with `stack ++ [n]`; the fold continues with
+    the unchanged stack, so twice / diamonds stay legal) -/
+theorem includeCycleTracking_eq : includeCycleTracking = "stack" ∧
+    includeCycleTest = "resolved in context.files_being_parsed" := ⟨rfl, rfl⟩
+
 theorem parseIncludedFileSource_eq : parseIncludedFileSource =
     ["relpath, linenum = relpath_from_inclusion_element(inclusion, context)",
      "inclusion_path = parent_path.parent / relpath",
-     "if not inclusion_path.exists():",
+     "if not inclusion_path.is_file():",
      "    raise exc.DataGenError(f'Cannot load include file {inclusion_path}', **linenum._asdict())",
-     "with inclusion_path.open() as f:",
-     "    incl_objects = parse_file(f, context)",
-     "    return incl_objects"] := rfl
+     "resolved = inclusion_path.resolve()",
+     "if resolved in context.files_being_parsed:",
+     "    raise exc.DataGenError(f'Include file {inclusion_path} includes itself', **linenum._asdict())",
+     "context.files_being_parsed.append(resolved)",
+     "try:",
+     "    with inclusion_path.open() as f:",
+     "        incl_objects = parse_file(f, context)",
+     "        return incl_objects",
+     "finally:",
+     "    context.files_being_parsed.pop()"] := rfl
+
+/-- only relative paths (an absolute one is a recipe error since 292eb44): names in one flat directory in the model -/
+theorem relpathSource_eq : relpathSource =
+    ["inclusion_parsed: Any = parse_element(inclusion, 'include_file', {}, {}, context)",
+     "relpath = inclusion_parsed.include_file",
+     "linenum = inclusion_parsed.line_num or LineTracker('unknown', -1)",
+     "if relpath.startswith('/'):",
+     "    raise exc.DataGenSyntaxError(f'include_file paths should be relative: {relpath}', **linenum._asdict())",
+     "return (Path(relpath), linenum)"] := rfl
+
 
 theorem parseVersionSource_eq : parseVersionSource =
     ["if version_declarations:",
@@ -189,11 +262,12 @@ theorem parseVersionSource_eq : parseVersionSource =
      "            raise exc.DataGenSyntaxError('Version must be 2 or 3: ', **context.line_num())",
      "    return base_version"] := rfl
 
-/-- all files are read first, macros are expanded afterwards with the final table (`parseRecipe`) -/
+/-- all files are read first, macros are expanded afterwards with the final table (`parseRecipe`); a `RecursionError` of either phase is wrapped into a recipe error (a5a821f) — the model's `Err.fuel` -/
 theorem parseRecipeHead_eq : parseRecipeHead =
     ["context = ParseContext()",
      "objects = parse_file(stream, context)",
-     "statements = parse_statement_list(objects, context)"] := rfl
+     "statements = parse_statement_list(objects, context)",
+     "except RecursionError"] := rfl
 
 theorem collectionRules_eq : collectionRules =
     ["option=option", "include_file=include_file", "macro=macro", "plugin=plugin", "object=statement",
